@@ -41,11 +41,22 @@ func (b *TupleBuilder) Put(name string, value Value) {
 }
 
 func (b *TupleBuilder) Finish() Tuple {
+	return b.finish(newSugarTupleStrict)
+}
+
+// finishDerived is Finish for a tuple derived from an existing one (e.g. a
+// projection): any attribute values are fine, (@: {}, @item: 1) is simply a
+// generic tuple.
+func (b *TupleBuilder) finishDerived() Tuple {
+	return b.finish(newSugarTuple)
+}
+
+func (b *TupleBuilder) finish(sugar func(at Value, name string, value Value) (Tuple, bool)) Tuple {
 	m := (*frozen.MapBuilder[string, Value])(b).Finish()
 	if index, has := m.Get("@"); has && m.Count() == 2 {
 		for _, name := range []string{StringCharAttr, BytesByteAttr, ArrayItemAttr, DictValueAttr} {
 			if value, has := m.Get(name); has {
-				if t, ok := newSugarTupleStrict(index, name, value); ok {
+				if t, ok := sugar(index, name, value); ok {
 					return t
 				}
 			}
@@ -624,7 +635,7 @@ func (t *GenericTuple) Project(names Names) Tuple {
 		}
 		b.Put(name, value)
 	}
-	return b.Finish()
+	return b.finishDerived()
 }
 
 // GenericTupleEnumerator represents an enumerator over a GenericTuple.
